@@ -306,7 +306,10 @@ Definition ev_of (t : Z * Z * Z) : option ev :=
   if op =? 4 then Some (Complete i (outcome_of b)) else
   if op =? 5 then Some ForceOpen else
   if op =? 6 then Some ForceClosed else
-  if op =? 7 then Some Reset else None.
+  if op =? 7 then Some Reset else
+  if op =? 8 then Some (Advance 0) else None.
+  (* op 8 = the call future of caller a is created (call()) without being polled: nothing
+     happens in call() for this layer, so the model treats it as a no-op *)
 
 Fixpoint evs_of (l : list (Z * Z * Z)) : list ev :=
   match l with
